@@ -6,6 +6,7 @@
 -/
 import Influx.Lemmas.TSIFinal
 import Influx.Lemmas.TSILog
+import Influx.Lemmas.TSIVarint
 
 namespace Influx.Props.C14
 open Influx.Model.TSI Influx.Spec.C14
@@ -131,6 +132,32 @@ theorem C14_truncated_log (c : LogCodec) (es : List Entry) (e : Entry) (p : List
     (hp : p.length < (c.encode e).length) (hpre : p = (c.encode e).take p.length) :
     parseLog c ((es.flatMap c.encode ++ p).length + 1) (es.flatMap c.encode ++ p) = es :=
   parseLog_truncated c es e p hp hpre _ (Nat.lt_succ_self _)
+
+/-- **a log entry cut at any byte is a short buffer**, over the real entry framing
+    (`appendLogEntry` / `LogEntry.UnmarshalBinary`: flag, uvarint id, three uvarint-length-prefixed
+    strings, 4 checksum bytes; `binary.PutUvarint` / `binary.Uvarint` with its 10-byte rule; tsi1's
+    `uvarint()` helper): for every entry whose id and lengths fit 64 bits, every checksum
+    function and every cut strictly inside the entry — also inside a multi-byte varint —
+    decoding answers `io.ErrShortBuffer`, the error `LogFile.open` recovers from; never a parse
+    error (which would make `Index.Open` fail) and never a checksum mismatch. This discharges
+    `LogCodec.torn` of `C14_truncated_log` for the real framing without any assumption on CRC-32. -/
+theorem C14_torn_entry_is_short_buffer (crc : List Nat → List Nat) (hcrc : ∀ b, (crc b).length = 4)
+    (e : RawEntry) (hf : e.fits) (m : Nat) (hm : m < (encodeEntry crc e).length) :
+    decodeEntry crc ((encodeEntry crc e).take m) = .shortBuffer :=
+  decodeEntry_torn crc hcrc e hf m hm
+
+/-- the varint layer alone: a torn varint is `io.ErrShortBuffer`, a whole one round-trips. -/
+theorem C14_torn_varint (x m : Nat) (hf : fitsUv 0 x = true) (hm : m < (putUvarint x).length) :
+    uvarintHelper ((putUvarint x).take m) = .shortBuffer ∧
+    ∀ rest, uvarintHelper (putUvarint x ++ rest) = .ok x (putUvarint x).length :=
+  ⟨uvarintHelper_torn x m hf hm, fun rest => uvarintHelper_put x rest hf⟩
+
+-- non-vacuity of the framing hypotheses: ids / lengths up to 2^64-1 fit, 2^64 does not;
+-- a series id of 130 takes two bytes and its first byte alone is a short buffer
+example : fitsUv 0 (2^64 - 1) = true := by simp [fitsUv]
+example : fitsUv 0 (2^64) = false := by simp [fitsUv]
+example : putUvarint 130 = [130, 1] := by simp [putUvarint]
+example : uvarintHelper [130] = .shortBuffer := by simp [uvarintHelper, readUv]
 
 -- non-vacuity: a history with every kind of allowed operation
 def exampleOps : List Op :=
